@@ -285,7 +285,7 @@ def run_impl(desc, cfg, base, built=None, folder=None):
                 else:
                     from pipefunc._utils import load
                     obs["stored"][name] = terms.enc(load(st))
-            names = [n for n in res if folder is not None and cfg.get("reload", True) and storage_of(desc, cfg, by_out[n]) != "shared_memory_dict"]
+            names = [n for n in res if folder is not None and cfg.get("reload", True)]
             if names:
                 vals = load_outputs(*names, run_folder=folder)
                 for n, v in zip(names, [vals] if len(names) == 1 else vals):
